@@ -359,7 +359,7 @@ pub fn exec(dev: &mut Device, x: &AuthDataSpec, log: &mut Log) -> Option<Finding
 
 const AAGUIDS: [usize; 3] = [16, 0, 17];
 const KEYS_QUICK: [usize; 4] = [77, 0, 32, 256];
-const COUNTS: [u32; 6] = [0, 1, 0xff, 0x100, 0x0102_0304, 0xffff_ffff];
+const COUNTS: [u32; 10] = [0, 1, 0xff, 0x100, 0x0102_0304, 0xffff_ffff, 0x8000_0000, 0x7fff_ffff, 0x00ff_ff00, 0xff00_00ff];
 
 fn ext_variants() -> u64 {
     // none + every subset of the MC extension members
@@ -388,7 +388,7 @@ pub fn gen(seed: u64, run: u64, tier: &str) -> Vec<Step> {
         let mut ids: Vec<usize> = if tier == "selfcheck" { (0..=700).step_by(13).collect() } else { (0..=700).collect() };
         ids.extend([65535, 65536, 70000]);
         for (k, id_len) in ids.into_iter().enumerate() {
-            let count = if k % 7 == 6 { rng.next() as u32 } else { COUNTS[k % COUNTS.len()] };
+            let count = if k % 2 == 1 { rng.next() as u32 } else { COUNTS[(k / 2) % COUNTS.len()] };
             steps.push(Step::AuthData(AuthDataSpec {
                 flavour: 0,
                 flags: (k % 16) as u8,
